@@ -210,3 +210,62 @@ func Slow(n, period, offset, steps int) *Scenario {
 	}
 	return &Scenario{Name: fmt.Sprintf("slow%d", n), Cfg: sim.Config{N: n}, Seed: seed}
 }
+
+// Irregular: a fixed irregular schedule, fully determined by its parameters
+// (a 64-bit LCG seeded with `seed` picks the gossiping pair of every step;
+// validator `n-1` is picked as initiator four times less often than the
+// others, so elections regularly stay open for several rounds). kind 1: the
+// last validator asks to leave at step 8; kind 2: key n asks validator 0 to
+// join at step 8; kind 3: both. A transaction is submitted every 6th step.
+// These are ordinary named seeds: the interesting ones are picked offline and
+// listed by number in the checks.
+func Irregular(n, seed, steps, kind int) *Scenario {
+	x := uint64(seed)*2862933555777941757 + 3037000493
+	next := func(m int) int {
+		x = x*6364136223846793005 + 1442695040888963407
+		return int((x >> 33) % uint64(m))
+	}
+	sc := &Scenario{Name: fmt.Sprintf("irregular%d-%d", n, seed), Cfg: sim.Config{N: n}}
+	total := n
+	if kind == 2 || kind == 3 {
+		total = n + 1
+		sc.Asked = map[int]int{n: 0}
+	}
+	for k := 0; k < steps; k++ {
+		if k == 8 {
+			if kind == 2 || kind == 3 {
+				sc.Seed = append(sc.Seed, Action{K: "Start", A: n, B: 0}, Action{K: "J", A: n, B: 0})
+			}
+			if kind == 1 || kind == 3 {
+				sc.Seed = append(sc.Seed, Action{K: "L", A: n - 1})
+			}
+		}
+		m := n
+		if k > 8 {
+			m = total
+		}
+		a := next(m)
+		if a == n-1 && next(4) != 0 {
+			a = next(m)
+		}
+		b := next(m - 1)
+		if b >= a {
+			b++
+		}
+		if k%6 == 0 {
+			sc.Seed = append(sc.Seed, Action{K: "T", A: a})
+		}
+		sc.Seed = append(sc.Seed, Action{K: "G", A: a, B: b})
+	}
+	return sc
+}
+
+// UnknownItx: n validators; after `at` steps validator 0 is handed a signed
+// internal transaction of an unknown type concerning validator 1's key, and
+// validator 1 one concerning an outsider's key (n+3).
+func UnknownItx(n, at, steps int) *Scenario {
+	seed := FairSeed(seq(n), at, 4)
+	seed = append(seed, Action{K: "IX", A: 0, B: 1}, Action{K: "IX", A: 1, B: n + 3})
+	seed = append(seed, FairSeed(seq(n), steps, 4)...)
+	return &Scenario{Name: fmt.Sprintf("unknownitx%d", n), Cfg: sim.Config{N: n}, Seed: seed}
+}
